@@ -47,6 +47,24 @@ impl C13 {
                 return false;
             }
         }
+        // tokens in circulation (sum of the balances of every listed account) are created only by such a Mint too,
+        // by exactly its amount, and never beyond the cap - whatever the supply counter says
+        let circ = |s: &Snap| s.bal.values().fold(0u128, |a, b| a.saturating_add(*b));
+        let (c0, c1) = (circ(pre), circ(&post));
+        h.out.oracle_checks += 1;
+        if c1 > c0 {
+            let good = ok && is_minter && matches!(op, Op::Mint { amt, .. } if c1 - c0 == *amt);
+            if !h.check(good, &format!("C13/mint/{kind}/tokens-created-without-minter-mint"), || {
+                format!("sum of balances {c0} -> {c1} in {kind} by {sender} (ok={ok}, model minter {:?})", m.minter)
+            }) {
+                return false;
+            }
+        }
+        if let Some(cap) = m.cap {
+            if !h.check(c1 <= cap || c1 <= c0, &format!("C13/cap/{kind}/circulation-above-cap"), || format!("sum of balances {c1} above cap {cap}")) {
+                return false;
+            }
+        }
         if let Op::Mint { amt, .. } = op {
             if ok {
                 h.out.count("mints_ok");
